@@ -135,6 +135,49 @@ pub fn hostile_history(rng: &mut Rng, pools: &Pools, corpus: &[Vec<Vec<u8>>]) ->
             b.truncate(65535);
             ops.push((rng.usize(np), b));
         }
+    } else if fam < 84 {
+        // nesting: a whole packet (often the exporter's next one) carried as the body of an extra
+        // flowset / set of another packet, under an id that is a version number, a cached template
+        // id or anything else; then the same packet on its own
+        family = "nest";
+        let mut ex = Exporter::new();
+        let mut cfg = Cfg::default();
+        cfg.count_is_flowsets = true;
+        let n = 1 + rng.usize(4);
+        for _ in 0..n {
+            let outer = conformant_packet(rng, &mut ex, &cfg, pools);
+            let inner = conformant_packet(rng, &mut ex, &cfg, pools);
+            let mut b = outer.clone();
+            let ver = if b.len() >= 2 { u16::from_be_bytes([b[0], b[1]]) } else { 0 };
+            let id: u16 = match rng.below(5) {
+                0 => 9,
+                1 => 10,
+                2 => 5,
+                3 => 256 + rng.below(4) as u16,
+                _ => rng.u16(),
+            };
+            let body: Vec<u8> = if rng.chance(1, 2) && inner.len() > 4 { inner[4..].to_vec() } else { inner.clone() };
+            if body.len() + 4 <= 65535 && b.len() + body.len() + 4 <= 65535 {
+                if ver == 9 && b.len() >= 20 {
+                    let c = u16::from_be_bytes([b[2], b[3]]).wrapping_add(1);
+                    b[2..4].copy_from_slice(&c.to_be_bytes());
+                    b.extend_from_slice(&id.to_be_bytes());
+                    b.extend_from_slice(&((body.len() + 4) as u16).to_be_bytes());
+                    b.extend_from_slice(&body);
+                } else if ver == 10 && b.len() >= 16 {
+                    let l = (b.len() + body.len() + 4) as u16;
+                    b[2..4].copy_from_slice(&l.to_be_bytes());
+                    b.extend_from_slice(&id.to_be_bytes());
+                    b.extend_from_slice(&((body.len() + 4) as u16).to_be_bytes());
+                    b.extend_from_slice(&body);
+                }
+            }
+            if rng.chance(1, 2) {
+                b.extend_from_slice(&inner);
+                b.truncate(65535);
+            }
+            ops.push((rng.usize(np), b));
+        }
     } else {
         family = "conf";
         let mut ex = Exporter::new();
